@@ -262,7 +262,15 @@ def classify_off(case, res):
                  t=('offset.tree-after-paths-differs', 'Execute(tree) on a used ClipperOffset differs from a fresh object'),
                  e3=('offset.paths-after-tree-differs', 'Execute(paths) after Execute(tree) differs from the first Execute(paths)'),
                  d2=('offset.execute-after-other-delta-differs', 'Execute(delta) after an Execute with another delta differs from the first Execute(delta)'),
-                 cl=('offset.clear-then-same-paths-differs', 'Clear() followed by the same paths gives another result'))
+                 cl=('offset.clear-then-same-paths-differs', 'Clear() followed by the same paths gives another result'),
+                 so=('offset.options-by-setter-differ-from-constructor',
+                     'a ClipperOffset whose options were set with MiterLimit()/ArcTolerance()/PreserveCollinear()/ReverseSolution() after '
+                     'construction gives another result than one constructed with these options (miter limit %g, arc tolerance %g, '
+                     'preserve_collinear %d, reverse_solution %d)' % (case.get('ml', 0), case.get('at', 0), case.get('pc', 0), case.get('rs', 0))),
+                 so2=('offset.options-by-setter-after-execute-differ',
+                      'options changed with the setters between two Executes are not (all) in force in the second one: it differs from a '
+                      'fresh object constructed with them (miter limit %g, arc tolerance %g, preserve_collinear %d, reverse_solution %d)'
+                      % (case.get('ml', 0), case.get('at', 0), case.get('pc', 0), case.get('rs', 0))))
     bad = [k for k in names if flags.get(k, '1') != '1']
     if bad:
         has_point = any(len(strip_dups(p, et in (0, 1))) == 1 for (jt, et, paths) in gs for p in paths)
@@ -458,7 +466,7 @@ def gen_off_cases(ctx, thorough):
                     cases.append(dict(tag='groups', ml=2.0, at=0.0, pc=0, rs=0, delta=delta, layout=layout,
                                       groups=[gplace(g, layout) for g in perm]))
     # option variations on a few group sets
-    for (ml, at, pc, rs) in ((1.0, 0.25, 1, 0), (4.0, 0.0, 0, 1), (2.0, 5.0, 1, 1)):
+    for (ml, at, pc, rs) in ((1.0, 0.25, 1, 0), (4.0, 0.0, 0, 1), (2.0, 5.0, 1, 1), (1.5, 0.0, 0, 0), (3.0, 1.0, 0, 0), (10.0, 0.1, 1, 1)):
         for perm in itertools.permutations([0, 1, 3, 4], 3):
             cases.append(dict(tag='groups-opts', ml=ml, at=at, pc=pc, rs=rs, delta=7.0, layout='diag',
                               groups=[gplace(g, 'diag') for g in perm]))
@@ -498,19 +506,44 @@ RC_POOL = [
     [(-20, 10), (120, 10), (120, 30), (-20, 30), (-20, 60), (120, 60), (120, 80), (-20, 80)],   # comb: several pieces
     [(100, 0), (160, -60), (160, 60)],                       # touches a corner from outside
     [(10, 10), (90, 90)],                                    # two points
+    # paths that stay OUTSIDE the rectangle while their bounds overlap it, moving through several side regions: they
+    # produce nothing but make ExecuteInternal record start locations
+    [(120, -20), (-50, -20), (-50, -50), (150, -50), (150, 150), (120, 150)],        # L around the top-right corner (2 corners)
+    [(-30, 130), (-30, -30), (130, -30), (130, -60), (-60, -60), (-60, 130)],        # L around the top-left corner, other direction
+    [(-20, 120), (-20, -20), (120, -20), (120, 120), (140, 120), (140, -40), (-40, -40), (-40, 120)],   # U around three sides
+    [(-40, 60), (60, -40), (-40, -40)],                      # triangle across a corner, outside
+    # paths that cross the boundary and end outside
+    [(-50, 30), (50, 50), (-50, 70)],                        # wedge through the left side
+    [(50, 150), (30, 50), (70, 50)],                         # wedge through the bottom side (y down), last vertex inside
+    [(150, 20), (60, 40), (60, 60), (150, 80)],              # through the right side
+    [(50, 50)],                                              # one point inside
+    [(0, 50)],                                               # one point on the boundary
 ]
 
-
 def gen_rc_lines(thorough):
-    seqs = [()] + [(i,) for i in range(len(RC_POOL))] + list(itertools.product(range(len(RC_POOL)), repeat=2))
+    """RC <lines01> rect A B: one object executes A then B (twice); B must equal a fresh object's result, and
+    Execute(A ++ B) the concatenation of the fresh results (path by path: C12_rect_stateless)"""
+    n = len(RC_POOL)
+    seqs = [()] + [(i,) for i in range(n)] + list(itertools.product(range(n), repeat=2))
     if not thorough:
-        seqs = seqs[::2] + [(1, 6), (6, 1), (5, 6), (2, 1)]
+        # every single path, every ordered pair that contains one of the "outside hugging" / "crossing" / one-point paths, and
+        # every second one of the rest
+        special = set(range(9, n))
+        pairs = list(itertools.product(range(n), repeat=2))
+        seqs = [()] + [(i,) for i in range(n)] + [p for k, p in enumerate(pairs) if (set(p) & special) or k % 2 == 0]
+    singles = [()] + [(i,) for i in range(n)]
     lines = []
     for lines01 in (0, 1):
         for a in seqs:
-            for b in seqs:
+            for b in (seqs if thorough else (singles if len(a) == 2 else seqs[::3] + singles)):
                 lines.append('RC %d 0 0 100 100 %s %s' % (lines01, vf.fmt_paths([RC_POOL[i] for i in a]),
                                                           vf.fmt_paths([RC_POOL[i] for i in b])))
+    # three paths in one call: outside-hugging, crossing, one point -- all orders
+    for lines01 in (0, 1):
+        for tri in itertools.permutations([9, 10, 11, 12, 13, 14, 15, 16, 17, 1, 5], 3):
+            if thorough or (set(tri) & {9, 10, 11, 12}) or (set(tri) & {16, 17}):
+                lines.append('RC %d 0 0 100 100 %s %s' % (lines01, vf.fmt_paths([RC_POOL[i] for i in tri[:2]]), vf.fmt_paths([RC_POOL[tri[2]]])))
+                lines.append('RC %d 0 0 100 100 %s %s' % (lines01, vf.fmt_paths([RC_POOL[tri[0]]]), vf.fmt_paths([RC_POOL[i] for i in tri[1:]])))
     return lines
 
 
@@ -901,7 +934,7 @@ def decide_case(ctx, exe, case, origin=''):
         if t[0] == 'OFFCB':
             cbm = int(t[1])
             t = ['OFF'] + t[2:]
-        c = dict(delta=float.fromhex(t[5]), groups=[], cb=cbm)
+        c = dict(delta=float.fromhex(t[5]), groups=[], cb=cbm, ml=float.fromhex(t[1]), at=float.fromhex(t[2]), pc=int(t[3]), rs=int(t[4]))
         pos, ng = 7, int(t[6])
         for _ in range(ng):
             jt, et = int(t[pos]), int(t[pos + 1])
